@@ -227,9 +227,11 @@ def check_latex(text, F, what, document, export_header=None):
 
 
 def check_dimacs_selected(text, what):
-    lines = text.split('\n')
+    # comment lines carry arbitrary header text (Hypothesis feeds string constants of this file, such as
+    # '\\begin{align', into header values): only the lines that are not comments tell the format
+    lines = [l for l in text.split('\n') if not l.startswith('c')]
     p = [l for l in lines if l.startswith('p cnf ')]
-    if len(p) != 1 or '\\begin{align' in text or any(l.startswith('* #variable=') for l in lines):
+    if len(p) != 1 or any('\\begin{align' in l for l in lines) or any(l.startswith('* #variable=') for l in lines):
         raise Violation("{}: DIMACS was expected, got {!r}".format(what, text[:80]))
 
 
